@@ -87,8 +87,9 @@ def inner_loops(base):
     """invariants of the three inner loops, keyed by syntactic ordinal (base = ordinal of the enumerate loop)"""
     return {
         base: {"inv": ["not conflicting", "clean_upto(rewrites, scheduled_rewrites, _i)"]},
+        # absolute indices into `rewrites` (the loop iterates the slice rewrites[i + 1:]): robust for the solver
         base + 1: {"inv": ["not conflicting",
-                           "forall(lambda q: implies(0 <= q and q < _i, not ov(rewrite_range, _iter[q][1].old)))"]},
+                           "forall(lambda q: implies(i < q and q < i + 1 + _i and q < len(rewrites), not ov(rewrite_range, rewrites[q][0])))"]},
         base + 2: {"inv": ["forall(lambda q: implies(0 <= q and q < _i, not ov(rewrite_range, _iter[q][1][0])))",
                            "implies(conflicting, witness(rewrites, scheduled_rewrites))",
                            "implies(not conflicting, forall(lambda q: implies(i < q and q < len(rewrites), not ov(rewrite_range, rewrites[q][0]))))"]},
